@@ -587,7 +587,7 @@ pub fn property(_tier: Tier) -> Property {
             Box::new(RandomPart {
                 name: "frame_ops",
                 rule: "proptest: frame with 0-12 fields from a small key pool (duplicates, keys differing only in case) +- binary, or 16-40 lines over a tiny key/value pool with 10-80 mostly-get operations, obtained through the real parser; up to 30 operations find/get/take_binary/binary/has_binary/fields_len/is_empty/partial fields() walks from both ends/(&frame).into_iter()/clone, then into_iter() with mixed next/next_back/take_binary and a drain; every return value compared with a Vec<Option<(k,v)>> + Option<bytes> model. non-trivial = a removal followed by iteration from both ends; distinct by serialised case",
-                cases: (100_000, 30_000_000),
+                cases: (100_000, 10_000_000),
                 strategy: Box::new(|_t| {
                     prop_oneof![
                         5 => (dup_frame(), prop::collection::vec(fop(), 0..30usize)).boxed(),
@@ -616,7 +616,7 @@ pub fn property(_tier: Tier) -> Property {
             Box::new(RandomPart {
                 name: "response_iter",
                 rule: "proptest: response with 0-6 frames +- error through the real parser; frames() and into_iter() advanced from generated ends until exhausted (+2 more calls), size_hint/len checked before every step; (&response).into_iter(), frames().rev(), successful_frames, is_error/is_success, into_single_frame compared with a frames-then-error VecDeque model. non-trivial = >=2 items walked from both ends",
-                cases: (60_000, 20_000_000),
+                cases: (60_000, 6_000_000),
                 strategy: Box::new(|_t| {
                     let fr = || wire::frame(3, 20, 20);
                     let resp = prop_oneof![
